@@ -32,3 +32,21 @@ Theorem C04_own_findings_unaffected : forall supers L name fault rs before after
     own_results supers L (before' ++ (name, fault, rs) :: after') = p' ++ rs ++ q'.
 Proof. exact own_findings_unaffected. Qed.
 Print Assumptions C04_own_findings_unaffected.
+
+(* "exactly once", spelled out: from the initial state over distinct file names the scanned and the skipped
+   names together have no repetition, are exactly the discovered names, and no name is in both lists *)
+Theorem C04_exactly_once : forall supers L, absorbs_all supers L = true ->
+  forall files, Forall (input_ok supers) files -> NoDup (map (fun fi : file_input => fst (fst fi)) files) ->
+  exists st', run_files supers L files ms_init = Completed st' /\
+    NoDup (ms_files st' ++ map fst (ms_skipped st')) /\
+    (forall n, In n (map (fun fi : file_input => fst (fst fi)) files) <->
+               In n (ms_files st') \/ In n (map fst (ms_skipped st'))) /\
+    (forall n, ~ (In n (ms_files st') /\ In n (map fst (ms_skipped st')))).
+Proof. exact exactly_once. Qed.
+Print Assumptions C04_exactly_once.
+
+(* a file that meets no fault is scanned, never skipped, whatever happens to the files around it *)
+Theorem C04_healthy_scanned : forall supers L files st st' name rs,
+  run_files supers L files st = Completed st' -> In (name, None, rs) files -> In name (ms_files st').
+Proof. exact healthy_scanned. Qed.
+Print Assumptions C04_healthy_scanned.
